@@ -42,8 +42,8 @@ PROPS.update({
     },
     "C05": {
         "title": "Batch verification equals conjunction of single verifications",
-        "rule": GEN + "Query sets with >=2 point labels and >=2 polynomials. Per transcript: all-true batch under 4 verifier seeds; random subsets of falsified claims; plain cancelling error pairs (delta,-delta) within one point and across points; challenge-aware error pairs (d, -d*xi_1/xi_2) across two point labels (xi decoded from the recorded verifier sponge); all claims true with the blinding evaluation of one KZG-style proof moved onto another proof (sum unchanged); proof list truncated / emptied / extended / permuted. Oracles: batch decision == AND of per-point `check` decisions run in group order on a clone of the same sponge (streaming: == AND of single-point verifications with honest single proofs); decision independent of verifier seed; false and cancelling claims and missing/surplus proofs not accepted." + DIST,
-        "required_classes": ["all-true-accepted", "batch-vs-single-mismatch", "false-claim-accepted", "cancelling-errors-accepted", "proof-list-truncated", "proof-list-extended", "verifier-seed-invariance", "blinding-moved-between-proofs"],
+        "rule": GEN + "Query sets with >=2 point labels and >=2 polynomials. Per transcript: all-true batch under 4 verifier seeds; random subsets of falsified claims; plain cancelling error pairs (delta,-delta) within one point and across points; challenge-aware error pairs (d, -d*xi_1/xi_2) across two point labels (xi decoded from the recorded verifier sponge); all claims true with the blinding evaluation of one KZG-style proof moved onto another proof (sum unchanged); proof list truncated / emptied / extended / permuted; PST13: first proof shortened by its (identity) last witness together with a later proof forged as (0,..,0,(v* G - C)/z_last) under the public challenges. Oracles: batch decision == AND of per-point `check` decisions run in group order on a clone of the same sponge (streaming: == AND of single-point verifications with honest single proofs); decision independent of verifier seed; false and cancelling claims and missing/surplus proofs not accepted." + DIST,
+        "required_classes": ["all-true-accepted", "batch-vs-single-mismatch", "false-claim-accepted", "cancelling-errors-accepted", "proof-list-truncated", "proof-list-extended", "verifier-seed-invariance", "blinding-moved-between-proofs", "short-first-proof-forgery"],
         "technique": "runtime monitoring: differential oracle batch_check vs sequential check on one transcript + reject-oracle on cancelling/shape faults",
         "level_text": "Differential monitoring of two library decision procedures on identical claims, plus reject-oracles for challenge-oblivious cancelling errors and proof-list shape faults; challenge-aware compensating errors are excluded because correct code accepts them (values are not absorbed into the transcript).",
         "design_ref": "5 (C05)",
@@ -54,7 +54,7 @@ PROPS.update({
 PROPS.update({
     "C04": {
         "title": "Degree bounds",
-        "rule": "Marlin, Sonic, IPA (thorough: also BLS12-377) with configurations holding >= 2 distinct enforced bounds (unsorted, duplicated). Refusal side: degree = bound+1, bound not in the enforced set, bound beyond the key, degree beyond the key, and `open` with an over-degree polynomial on valid states must yield Err/panic. Verifier side (with a positive control on the same transcript): commitment made under d' presented as d with the honest proof and with a proof from the library prover run under the presented bound; label removed; shifted part dropped (label kept / removed), swapped between two polynomials, borrowed; cross-key: degree d+1 polynomial committed under bound d+1 with a second key trimmed from the same SRS and presented as bound d to the first verifier key; a polynomial of degree above d committed WITHOUT bound and honestly opened as unbounded, presented under bound d with the identity element or a borrowed honest degree-bound part (Marlin, IPA). Preconditions: p(z) != 0, z != 0, non-vacuous shift; cases failing them are skipped." + DIST,
+        "rule": "Marlin, Sonic, IPA (thorough: also BLS12-377) with configurations holding >= 2 distinct enforced bounds (unsorted, duplicated). Refusal side: degree = bound+1, bound not in the enforced set, bound beyond the key, degree beyond the key, and `open` with an over-degree polynomial on valid states must yield Err/panic. Verifier side (with a positive control on the same transcript): commitment made under d' presented as d with the honest proof and with a proof from the library prover run under the presented bound; label removed; shifted part dropped (label kept / removed), swapped between two polynomials, borrowed; cross-key: degree d+1 polynomial committed under bound d+1 with a second key trimmed from the same SRS and presented as bound d to the first verifier key; a polynomial of degree above d committed WITHOUT bound and honestly opened as unbounded, presented under bound d with the identity element or a borrowed honest degree-bound part (Marlin, IPA), through check and through check_combinations of the single-term equation (there also with the bound label alone). Preconditions: p(z) != 0, z != 0, non-vacuous shift; cases failing them are skipped." + DIST,
         "required_classes": ["degree-exceeds-bound", "bound-beyond-key", "degree-beyond-key", "positive-control", "mislabelled-bound", "cross-key-mislabel", "unbounded-transcript-under-bound"],
         "technique": "runtime monitoring: boundary-magnitude refusal oracle + relabelling faults on accepting transcripts with positive control",
         "level_text": "Fault enumeration around every degree-bound boundary (deg=d+1, d not in B, d>key) and over every way of presenting a bounded commitment under another bound, each with a positive control so rejections are not vacuous.",
@@ -84,8 +84,8 @@ PROPS.update({
 PROPS.update({
     "C07": {
         "title": "Hiding",
-        "rule": "KZG10, Marlin, Sonic, PST13, IPA, Hyrax; seeded polynomials of all shapes, all degree-bound settings, hiding bounds h in [1, supported]. Per case the monitor observes the caller's RNG through a counting wrapper and the returned commitment state: equal seeds => identical commitment and state; 16 fresh seeds => pairwise distinct commitments; bytes drawn from the caller's RNG >= (blinded parts)*(h+2)*32 (IPA / Hyrax: one scalar per blinded part / row); blinding polynomial has exactly h+2 non-zero pairwise-distinct coefficients (PST13: degree h+1, >= h+2 terms); commitment == naive image of the polynomial + naive image of the blinding coefficients under the public gamma powers (shifted window for Sonic); proof.random_v == sum_j xi_j * r_j(z) with xi_j decoded from the recorded prover sponge trace; different blinding => different proof; a hiding request without RNG is refused; without hiding the commitment is deterministic, draws 0 bytes and equals the plain image." + DIST,
-        "required_classes": ["equal-seeds-equal-output", "rng-accounting", "fresh-seeds-distinct-commitments", "missing-rng-refused", "non-hiding-deterministic", "blinding-polynomial-shape", "commitment-is-plain-plus-blinding", "proof-blinding-value"],
+        "rule": "KZG10, Marlin, Sonic, PST13, IPA, Hyrax; seeded polynomials of all shapes, all degree-bound settings, hiding bounds h in [1, supported]. Per case the monitor observes the caller's RNG through a counting wrapper and the returned commitment state: equal seeds => identical commitment and state; 16 fresh seeds => pairwise distinct commitments; bytes drawn from the caller's RNG >= (blinded parts)*(h+2)*32 (IPA / Hyrax: one scalar per blinded part / row); blinding polynomial has exactly h+2 non-zero pairwise-distinct coefficients (PST13: degree h+1, >= h+2 terms); commitment == naive image of the polynomial + naive image of the blinding coefficients under the public gamma powers (shifted window for Sonic); proof.random_v == sum_j xi_j * r_j(z) with xi_j decoded from the recorded prover sponge trace; different blinding => different proof; a hiding request without RNG is refused; an IPA hiding opening draws at least (supported + 2) scalars and none of its cross terms is the identity, whatever the degree of the opened polynomial; without hiding the commitment is deterministic, draws 0 bytes and equals the plain image." + DIST,
+        "required_classes": ["equal-seeds-equal-output", "rng-accounting", "fresh-seeds-distinct-commitments", "missing-rng-refused", "non-hiding-deterministic", "blinding-polynomial-shape", "commitment-is-plain-plus-blinding", "proof-blinding-value", "proof-blinding-covers-the-key"],
         "technique": "runtime monitoring: RNG-accounting probe + structural oracle on returned commitment state + sponge-trace replay",
         "level_text": "Structure, freshness across seeds and RNG accounting of every blinded commitment and proof are decided from observations at the API boundary; statistical independence of the coefficients is not decidable by observation and is not claimed.",
         "design_ref": "5 (C07)",
@@ -123,8 +123,8 @@ PROPS.update({
     },
     "C13": {
         "title": "Column openings of the code-based schemes",
-        "rule": "(a0) distances (53-bit rationals) whose exact quotient (lambda+1)/-log2(1-d/2) lies 1e-6..1e-10 above or below an integer k: the returned t must be the exact minimum (quotients within 1e-10 of an integer are tallied separately: the library computes in f64, finding F14). (a) calculate_t (hook H1) on seeded (lambda in 1..256, distance (rho-1)/rho for rho=2..16 and Brakedown's 61000/1521000, n: small, geometric ladder to 2^41, near powers of 256, and near the field-size boundary lambda+log2 n ~ bits) over four fields (252/253/255/381 bits), compared with an exact big-integer evaluation of 2(1-d/2)^t + n/|F| <= 2^-lambda at t and t-1 with the true modulus (and, for classification only, with |F|:=2^bits). (b) honest proofs of univariate / multilinear Ligero (sec_param x rho_inv grid through the public constructor) and Brakedown, degrees up to 6000 / 13 variables: column and path count == t, leaf indices == the harness's derivation from the recorded squeeze_bytes events, inside the codeword, byte width covers the codeword, every column authenticated against the root by an independent path computation; verifier side: on an honest proof (true value) the later copy of a column at a position opened twice is shifted inside the kernel of the linear tests (b, and r with well-formedness), path kept - not accepted. (c) reported distance == constructor arguments. (d) encode linear, zero-preserving, of the declared length. (e) parameter sets for which no t exists are refused." + DIST,
-        "required_classes": ["calculate-t-minimal", "column-count", "column-positions", "columns-authenticated", "encode-linear", "distance-reported", "duplicate-position-authenticated", "calculate-t-minimal[quotient-near-an-integer]"],
+        "rule": "(a0) distances (53-bit rationals) whose exact quotient (lambda+1)/-log2(1-d/2) lies 1e-6..1e-10 above or below an integer k: the returned t must be the exact minimum (quotients within 1e-10 of an integer are tallied separately: the library computes in f64, finding F14). (a) calculate_t (hook H1) on seeded (lambda in 1..256, distance (rho-1)/rho for rho=2..16 and Brakedown's 61000/1521000, n: small, geometric ladder to 2^41, near powers of 256, and near the field-size boundary lambda+log2 n ~ bits) over four fields (252/253/255/381 bits), compared with an exact big-integer evaluation of 2(1-d/2)^t + n/|F| <= 2^-lambda at t and t-1 with the true modulus (and, for classification only, with |F|:=2^bits). (b) honest proofs of univariate / multilinear Ligero (sec_param x rho_inv grid through the public constructor) and Brakedown, degrees up to 6000 / 13 variables: column and path count == t, leaf indices == the harness's derivation from the recorded squeeze_bytes events, inside the codeword, byte width covers the codeword, every column authenticated against the root by an independent path computation; verifier side: on an honest proof (true value) the later copy of a column at a position opened twice is shifted inside the kernel of the linear tests (b, and r with well-formedness), path kept - not accepted. (c) reported distance == constructor arguments. (d) encode linear, zero-preserving, of the declared length. (e) parameter sets for which no t exists are refused - at commit, and at open / check when a proof made under usable parameters meets a key with an unreachable security level (codewords shorter than lambda included)." + DIST,
+        "required_classes": ["calculate-t-minimal", "column-count", "column-positions", "columns-authenticated", "encode-linear", "distance-reported", "duplicate-position-authenticated", "calculate-t-minimal[quotient-near-an-integer]", "unusable-parameters-refused[open-check]"],
         "technique": "runtime monitoring: exact-rational oracle on a hooked pure function + structural monitor over mirrored proofs and the recorded sponge trace",
         "level_text": "The floating-point column-count formula is compared with exact arithmetic on 10^4 (quick) to 10^6 (thorough) parameter points including the numerically critical region, and every generated proof is checked to carry exactly that many authenticated, transcript-derived columns.",
         "design_ref": "5 (C13)",
@@ -135,8 +135,8 @@ PROPS.update({
 PROPS.update({
     "C03": {
         "title": "Evaluation binding against crafted and malformed proofs",
-        "rule": "Finite attack catalogue, every entry a case class with a false claimed value (recomputed truth): (generic, all 8 trait schemes) library prover run on (q, state_q) against commitment(p); honest proof for (p, z') replayed at z; honest proof for commitment(q) presented for commitment(p); empty batch proof list. (Marlin/Sonic/PST13) each proof component replaced (random / identity witness, random / dropped blinding value), PST13 witness list shorter / longer / empty. (Hyrax) inner proof list empty / truncated, z stretched / shortened, com_eval replaced by a fresh commitment to the claimed value, z_d changed. (IPA, check and batch_check) rounds missing / extra random / uneven, c and final key replaced, and the identity-padding attack: the harness's own IPA prover run on the key padded with identity elements to 2^(log d + k), k=1,2, with the extra coefficient chosen so that the inner product equals the false value. (Ligero/Brakedown, through mirror structs, with the verifier transcript simulated to derive the opened indices) opening vector altered; opening vector and well-formedness vector altered by +delta / -delta (cancelling in the sum of the two column tests); proof consistent with another matrix (its own paths / honest paths of the committed tree / altered sibling); opening and well-formedness vectors stretched to the codeword length by solving E'(v')[j]=E(v)[j] for all j with Gaussian elimination over the public encode; well-formedness absent; columns repeated / shifted / truncated; paths swapped. (Hyrax) the proofs of two different polynomials of one opening swapped. (Marlin, Sonic, PST13, IPA batch_check) honest batch proof over 3..4 point labels with a pair of false values (d, -d*xi_1/xi_2) on two point labels, one pair per pair of labels. Sanity classes confirm that harness-built honest proofs are accepted." + DIST,
-        "required_classes": ["foreign-state-proof", "replayed-other-point", "foreign-commitment-proof", "rounds-extra-identity-padding", "stretched-opening-vector", "inner-proof-list-empty", "opening-vector-altered", "harness-built-honest-proof-accepted", "harness-prover-sanity", "proof-elements-swapped", "honest-proof-cancelling-values[across-points]", "opening-and-well-formedness-vectors-cancelling"],
+        "rule": "Finite attack catalogue, every entry a case class with a false claimed value (recomputed truth): (generic, all 8 trait schemes) library prover run on (q, state_q) against commitment(p); honest proof for (p, z') replayed at z; honest proof for commitment(q) presented for commitment(p); empty batch proof list. (Marlin/Sonic/PST13) each proof component replaced (random / identity witness, random / dropped blinding value), PST13 witness list shorter / longer / empty. (Hyrax) inner proof list empty / truncated, z stretched / shortened, com_eval replaced by a fresh commitment to the claimed value, z_d changed. (IPA, check and batch_check) rounds missing / extra random / uneven, c and final key replaced, and the identity-padding attack: the harness's own IPA prover run on the key padded with identity elements to 2^(log d + k), k=1,2, with the extra coefficient chosen so that the inner product equals the false value. (Ligero/Brakedown, through mirror structs, with the verifier transcript simulated to derive the opened indices) opening vector altered; opening vector and well-formedness vector altered by +delta / -delta (cancelling in the sum of the two column tests); proof consistent with another matrix (its own paths / honest paths of the committed tree / altered sibling); opening and well-formedness vectors stretched to the codeword length by solving E'(v')[j]=E(v)[j] for all j with Gaussian elimination over the public encode; well-formedness absent; columns repeated / shifted / truncated; paths swapped. (Hyrax) the proofs of two different polynomials of one opening swapped. (PST13) the library prover run on the polynomial with two variables exchanged against the original commitment. (univariate Ligero, 2100..2600 coefficients) adaptive window forgery: opening consistent with p + e where e vanishes on the first 256 Reed-Solomon points, the positions answered being read off the squeezed bytes of the library verifier itself on a draft proof. (Marlin, Sonic, PST13, IPA batch_check) honest batch proof over 3..4 point labels with a pair of false values (d, -d*xi_1/xi_2) on two point labels, one pair per pair of labels. Sanity classes confirm that harness-built honest proofs are accepted." + DIST,
+        "required_classes": ["foreign-state-proof", "replayed-other-point", "foreign-commitment-proof", "rounds-extra-identity-padding", "stretched-opening-vector", "inner-proof-list-empty", "opening-vector-altered", "harness-built-honest-proof-accepted", "harness-prover-sanity", "proof-elements-swapped", "honest-proof-cancelling-values[across-points]", "opening-and-well-formedness-vectors-cancelling", "positions-outside-a-window-never-opened", "variables-exchanged-polynomial"],
         "technique": "runtime monitoring: adversarial workload (attack catalogue incl. harness-side provers and linear-system solving), reject-oracle",
         "level_text": "A catalogue, not a proof of soundness: held on K attacks of the listed classes. It reaches what tests cannot because the proofs are not produced by the honest prover: the harness rebuilds crate-private proof types through their serialization, runs its own IPA prover and solves for stretched Ligero vectors.",
         "design_ref": "5 (C03)",
@@ -156,8 +156,8 @@ PROPS.update({
     },
     "C15": {
         "title": "PST13 parameters",
-        "rule": "Grid cells (num_vars, max_degree): quick [1,5]^2 plus three cells with max degree 6 and the wide cells (66,1), (130,1) (thorough also (65,2)), thorough the complete [1,6]^2 grid (exhaustive for the combinatorial part), random supported_degree <= max_degree per visit. Per cell: published key set == set of all exponent vectors of total degree <= D (count C(n+D,D), no missing / extra / duplicate); e(G[m*x_i],H) == e(G[m],beta_i H) for every (m,i) with deg(m*x_i) <= D (randomised batching per variable, per-pair fallback); trimmed key == monomials of degree <= supported with identical elements; dense, sparse, top-degree-only and single-monomial mixed polynomials (with and without hiding) commit, open and verify, and value+1 is not accepted; four polynomials (zero, dense, constant, sparse, rotated through the list positions, hiding mixed) opened together at one point verify, one value+1 does not." + DIST,
-        "required_classes": ["monomial-set", "trapdoor-consistency", "trim-degree-filter", "mixed-monomial-opens", "mixed-monomial-binding", "polynomial-list-opens", "polynomial-list-binding"],
+        "rule": "Grid cells (num_vars, max_degree): quick [1,5]^2 plus three cells with max degree 6 and the wide cells (66,1), (130,1) (thorough also (65,2)), thorough the complete [1,6]^2 grid (exhaustive for the combinatorial part), random supported_degree <= max_degree per visit. Per cell: published key set == set of all exponent vectors of total degree <= D (count C(n+D,D), no missing / extra / duplicate); e(G[m*x_i],H) == e(G[m],beta_i H) for every (m,i) with deg(m*x_i) <= D (randomised batching per variable, per-pair fallback); trimmed key == monomials of degree <= supported with identical elements; per-variable G2 elements and the G1 elements of distinct monomials pairwise different (independent trapdoors); dense, sparse, top-degree-only and single-monomial mixed polynomials (with and without hiding) commit, open and verify, and value+1 is not accepted; four polynomials (zero, dense, constant, sparse, rotated through the list positions, hiding mixed) opened together at one point verify, one value+1 does not." + DIST,
+        "required_classes": ["monomial-set", "trapdoor-consistency", "trim-degree-filter", "mixed-monomial-opens", "mixed-monomial-binding", "polynomial-list-opens", "polynomial-list-binding", "trapdoors-independent"],
         "technique": "runtime monitoring: structural invariant of the SRS (set equality + pairing identities) + end-to-end oracle on mixed-monomial workloads",
         "level_text": "The multiset enumeration behind the parameters is checked against an independent enumeration on the whole small grid, and the quotient decomposition is exercised on genuinely multivariate polynomials the suite never generates.",
         "design_ref": "5 (C15)",
